@@ -455,6 +455,49 @@ def _run_chain(case):
                             viols.append(V("C18:chain:derived:values-differ", "%s: values differ after the round trip" % n_, **tag))
                         else:
                             outcomes["chain:derived:ok"] = outcomes.get("chain:derived:ok", 0) + 1
+        # the file's _FillValue is an ORDINARY number (-1, 0, 1: common for integer rasters) and the variable has a missing cell, so that the
+        # array read carries that number as its marker; a result DERIVED from it (fuzzy conversion, difference, copy) legitimately holds the same
+        # number in cells that are present: written and read back, those cells are still present
+        from mpilot.program import Program
+
+        for nctype, fillv, stored in (("i2", -1, [0, 4, 8, 0, 2, 6]), ("i2", 0, [1, 4, 8, 1, 2, 6]), ("f8", 1.0, [0.0, 4.0, 8.0, 0.5, 2.0, 6.0]), ("i4", -1, [0, 4, 8, 0, 2, 6])):
+            for m in (1 << 5, 1 << 2, (1 << 5) | 1):
+                miss = [bool(m >> i & 1) for i in range(6)]
+                _make_template(os.path.join(work, "in.nc"), (2, 3), {"v": (nctype, stored, miss, fillv)})
+                for derived in ("fuzzy", "difference", "copy"):
+                    p = Program(libraries=("mpilot.libraries.eems.basic", "mpilot.libraries.eems.fuzzy", "mpilot.libraries.eems.netcdf"), working_dir=work)
+                    p.add_command(p.find_command_class("EEMSRead"), "R", {"InFileName": "in.nc", "InFieldName": "v"})
+                    if derived == "fuzzy":
+                        p.add_command(p.find_command_class("CvtToFuzzy"), "D", {"InFieldName": "R", "FalseThreshold": 0, "TrueThreshold": 8})  # -1, 0 and +1 all occur
+                    elif derived == "difference":
+                        p.add_command(p.find_command_class("EEMSRead"), "S", {"InFileName": "in.nc", "InFieldName": "v"})
+                        p.add_command(p.find_command_class("AMinusB"), "D0", {"A": "R", "B": "S"})  # zeros
+                        p.add_command(p.find_command_class("Sum"), "D", {"InFieldNames": ["D0", "R"]})
+                    else:
+                        p.add_command(p.find_command_class("Copy"), "D", {"InFieldName": "R"})
+                    p.add_command(p.find_command_class("EEMSWrite"), "W", {"OutFileName": "out.nc", "OutFieldNames": ["D"], "DimensionFileName": "in.nc", "DimensionFieldName": "v"})
+                    snapshot.remove_path(os.path.join(work, "out.nc"))
+                    evals += 1
+                    tag = {"nc_type": nctype, "file_fill_value": fillv, "stored": stored, "missing": miss, "derived_by": derived}
+                    sample = tag
+                    try:
+                        with numpy.errstate(all="ignore"):
+                            first = p.commands["D"].result.copy()
+                            p.commands["W"].result
+                    except MPilotError as exc:
+                        viols.append(V("C18:chain:inherited-fill:raised:%s" % type(exc).__name__, "model raised %s" % str(exc).split("\n")[0][:160], **tag))
+                        continue
+                    res = _eems_read(work, "out.nc", "D", None, None)
+                    want = numpy.ma.getmaskarray(first)
+                    if res[0] == "err":
+                        viols.append(V("C18:chain:inherited-fill:reread-raised:%s" % type(res[1]).__name__, "re-reading raised %s" % str(res[1]).split("\n")[0][:120], **tag))
+                    elif (numpy.ma.getmaskarray(res[1]) != want).any():
+                        viols.append(V("C18:chain:inherited-fill:missing-cells-differ", "cells present in the written result (values %r, missing %r) came back missing: %r" % (
+                            numpy.ma.getdata(first).ravel().tolist(), want.ravel().tolist(), numpy.ma.getmaskarray(res[1]).ravel().tolist()), **tag))
+                    elif not numpy.array_equal(numpy.ma.getdata(res[1])[~want], numpy.ma.getdata(first)[~want]):
+                        viols.append(V("C18:chain:inherited-fill:values-differ", "values differ after the round trip", **tag))
+                    else:
+                        outcomes["chain:inherited-fill:ok"] = outcomes.get("chain:inherited-fill:ok", 0) + 1
     finally:
         import shutil
         shutil.rmtree(work, ignore_errors=True)
@@ -462,7 +505,7 @@ def _run_chain(case):
 
 
 TEMPLATE_STYLES = ("plain", "packed", "packed-both", "fill", "fill-nan", "int", "unsigned", "attrs", "descending",
-                   "format:NETCDF3_CLASSIC", "format:NETCDF3_64BIT_OFFSET", "format:NETCDF4_CLASSIC", "tvar-attrs")  # the file flavour of the template is its own business
+                   "format:NETCDF3_CLASSIC", "format:NETCDF3_64BIT_OFFSET", "format:NETCDF4_CLASSIC", "tvar-attrs", "missing-value-attr")  # the file flavour of the template is its own business
 
 
 def _styled_template(path, style):
@@ -499,6 +542,12 @@ def _styled_template(path, style):
             x = ds.createVariable("x", "f4", ("x",))
             x.setncatts({"units": "degrees_east", "standard_name": "longitude", "axis": "X", "valid_range": numpy.array([-180.0, 180.0], dtype="f4"), "comment": "a, b; c"})
             x[:] = [-120.0, -119.75, -119.5]
+        elif style == "missing-value-attr":
+            # coordinates as CDO / NCO / older ESRI exports write them: a missing_value attribute (and attribute names that are also Python attributes)
+            x = ds.createVariable("x", "f8", ("x",))
+            x.setncatts({"missing_value": -9999.0, "units": "m", "name": "easting", "scale": "1:24000"})
+            x[:] = [1.0, 2.0, 3.0]
+            y.setncattr("missing_value", numpy.float64(-9999.0))
         elif style == "descending":
             x = ds.createVariable("x", "f8", ("x",))
             x[:] = [3.0, 2.0, 1.0]
